@@ -5,7 +5,7 @@
                               compatible quotient), agrees with the fast formulation used on large traces, Explains is sound/complete
  I  spec/C17_CongCImpl.tla    Nieuwenhuis-Oliveras as coded in prover/congc.py (rep, class_list, use_list, lookup, proof forest with
                               path reversal, pending; actions Merge / PropagateOne / Test / Explain / Return); TLC explores ALL merge
-                              sequences (3 constants x 3 merges quick; 4 x 3 and 3 x 4 thorough; deeper by simulation); invariants
+                              sequences (3 constants x 3 merges quick; also 4 x 3 thorough; deeper by simulation); invariants
                               TestCorrect, ExplainCorrect, QueryCorrect + structural ones; every completed sequence is emitted
  -> harness/drivers/c17.py    replays the sequences on the real CongClosure (full record projection, test on all pairs, explain on
                               all equal pairs) and on CongClosureHOL (f(x,y) = F x y; theorem run through theory.check_proof), plus
@@ -64,20 +64,20 @@ def _nlines(p):
 
 def run(rep, tier):
     quick = tier == "quick"
-    wd = work_dir(PID, clean=True)
+    wd = work_dir(PID, "run", clean=True)   # .work/C17/*.diff (validated repairs) must survive
     rep.rule = ("TLC explores every sequence of <= %s merges (constant equations a=b and f(a,b)=c, including trivial and repeated "
                 "ones) of the implementation-level specification, one PropagateOne per pending equation, with test/explain "
                 "queries between merges; one behaviour per orbit of constant renaming (SYMMETRY), replayed under a seeded renaming. "
                 "Every completed sequence is an event of the real CongClosure (and, sampled, of CongClosureHOL); random curried-term "
                 "scenarios and union sequences are added. Non-trivial = an event on which the real code answered test on all pairs / "
                 "explained / proved and the Closure clause was evaluated; distinct by (kind, merge history or scenario step)."
-                % ("3 over 3 constants" if quick else "3 over 3 and 4 constants and <= 4 over 3 constants (plus simulation: 7 over 6)"))
+                % ("3 over 3 constants" if quick else "3 over 3 constants and over 4 constants (plus simulation: 7 merges over 6 constants, 6 over 3)"))
     rep.assumptions = ["TLC/SANY and the CommunityModules (Json, CSV, IOUtils); CPython",
                        "vocabulary: constants and one binary symbol; HOL terms are flattened to it by naming subterms structurally "
                        "(application = the binary symbol), which is exactly the wrapper's own reduction",
                        "the fast class-map formulation of the closure used on large events is checked equal to the least-fixpoint "
                        "definition only on the small scope of C17_CongC (<= 3 equations over 3 constants, <= 2 over 4)",
-                       "union-find non-termination is observed with a 20 ms timer per call and reported only when TLC finds a cycle "
+                       "union-find non-termination is observed with a 20 ms CPU-time limit per call and reported only when TLC finds a cycle "
                        "in the recorded parent map"]
     scratch = {"VECTOR_FILE": wd / "mutant_vectors.csv"}
     vec = wd / "vectors.csv"
@@ -104,24 +104,24 @@ def run(rep, tier):
     extra = []   # (name, vector file, max, every)
     if not quick:
         with _Phase(rep, "model_checking_larger"):
-            for name, cfg, mx in (("wide", "C17_CongCImpl_wide.cfg", 0), ("deep", "C17_CongCImpl_deep.cfg", 40000)):
-                v2 = wd / ("vectors_%s.csv" % name)
-                r = _mc(rep, "C17_CongCImpl", cfg, wd, vec=v2, workers=3, timeout=7200)
-                if r.violated:
-                    return
-                require(_nlines(v2) > 20000, "C17_CongCImpl %s emitted too few vectors" % cfg)
-                extra.append((name, v2, mx, 0))
-            v3 = wd / "vectors_sim.csv"
-            r = tlc("C17_CongCImpl", "C17_CongCImpl_sim.cfg", wd=wd / "mc", simulate="num=2500", depth=80, seed_=seed(),
-                    env={"VECTOR_FILE": v3}, timeout=3600)
-            if r.error:
-                raise MachineryError("TLC simulation failed: %s\n%s" % (r.error, r.out[-2000:]))
-            rep.add_mc("C17_CongCImpl(simulate)", r, "C17_CongCImpl_sim.cfg num=2500")
+            v2 = wd / "vectors_wide.csv"
+            r = _mc(rep, "C17_CongCImpl", "C17_CongCImpl_wide.cfg", wd, vec=v2, workers=3, timeout=7200)
             if r.violated:
-                rep.design_violation("C17_CongCImpl:sim", r)
                 return
-            require(_nlines(v3) >= 2000, "simulation emitted too few vectors")
-            extra.append(("sim", v3, 0, 1))
+            require(_nlines(v2) > 20000, "C17_CongCImpl_wide.cfg emitted too few vectors")
+            extra.append(("wide", v2, 0, 0))
+            for name, cfg, num in (("sim", "C17_CongCImpl_sim.cfg", 2500), ("sim3", "C17_CongCImpl_sim3.cfg", 2500)):
+                v3 = wd / ("vectors_%s.csv" % name)
+                r = tlc("C17_CongCImpl", cfg, wd=wd / "mc", simulate="num=%d" % num, depth=100, seed_=seed(),
+                        env={"VECTOR_FILE": v3}, timeout=3600)
+                if r.error:
+                    raise MachineryError("TLC simulation failed: %s\n%s" % (r.error, r.out[-2000:]))
+                rep.add_mc("C17_CongCImpl(simulate)", r, "%s num=%d" % (cfg, num))
+                if r.violated:
+                    rep.design_violation("C17_CongCImpl:" + name, r)
+                    return
+                require(_nlines(v3) >= num - 10, "simulation %s emitted too few vectors" % cfg)
+                extra.append((name, v3, 0, 1))
     # ------------------------------------------------------------------ non-vacuity of the specifications (in the background)
     mutants = [("closure_without_congruence", "C17_CongC", "C17_CongC_small.cfg",
                 [("C17_Closure.tla", "/\\ <<e1[2], e2[2]>> \\in R /\\ <<e1[3], e2[3]>> \\in R }", "/\\ FALSE }")],
@@ -149,13 +149,13 @@ def run(rep, tier):
     fm = pool.submit(run_mutants)
     # ------------------------------------------------------------------ spec -> code: run the real code
     sd = seed()
-    jobs = [("c17", ["core", vec, wd / "core.ndjson", sd, 0, 0], None),
+    jobs = [("c17", ["core", vec, wd / "core.ndjson", sd, 0, 0, 1 if quick else 0], None),
             ("c17", ["hol", vec, wd / "hol.ndjson", sd, 300 if quick else 6000], None),
             ("c17", ["holrand", 100 if quick else 2500, wd / "holrand.ndjson", sd], None),
             ("c17", ["uf", vec, 100 if quick else 0, 120 if quick else 3000, wd / "uf.ndjson", sd], None)]
     traces = ["core", "hol", "holrand", "uf"]
     for name, vf, mx, every in extra:
-        jobs.append(("c17", ["core", vf, wd / ("core_%s.ndjson" % name), sd, mx, every], None))
+        jobs.append(("c17", ["core", vf, wd / ("core_%s.ndjson" % name), sd, mx, every, 1 if name == "wide" else 0], None))
         traces.append("core_" + name)
     if not quick:
         jobs.append(("c17", ["hol", extra[0][1], wd / "hol_wide.ndjson", sd, 3000], None))
